@@ -55,6 +55,7 @@ class State:
         s.notnil = list(self.notnil)
         s.pathid = list(self.pathid)
         s.lets = dict(self.lets)
+        s.locked = getattr(self, 'locked', 0)
         return s
 
 
@@ -103,6 +104,7 @@ class Exec:
         self.cur_fn = ''
         self.cur_contract = None
         self.max_inline_depth = 12
+        self.cur_env = {}
         self.log = []
 
     # ------------------------------------------------------------------------------------------
